@@ -413,6 +413,21 @@ def run(chk):
     chk.rule("R10-order", "removable namespaces whose used-set is fed by elements of a removable namespace (ordering / self reference)", no, floor=3)
     from . import diag
     diag.compare(chk, "R10-steps", "cleanup", cleanup_table(prog), "steps of cleanup (filters, recorded names, dropped entries, work-queue operations, predicate helpers and predicate closures) with their control predicates, compared with the reviewed table", floor=60)
+    # dangling references are dropped first: whether an element is empty / unreferenced is judged (is_*_empty, get_used_*,
+    # delete_empty_*) only after the remove_broken_* / remove_invalid_* steps of the same function ran, otherwise an element that
+    # only holds dangling references survives this run and goes in the next one
+    nfirst = 0
+    for fid, b in sorted(prog.bodies.items()):
+        if not fid.startswith("cleanup::") or b.kind == "Closure":
+            continue
+        rem = [(bi, t) for bi, t in b.calls() if re.search(r"cleanup::(\w+::)*remove_(broken|invalid)\w*$", mir.strip_generics(t.get("res") or ""))]
+        jud = [(bi, t) for bi, t in b.calls() if re.search(r"cleanup::(\w+::)*(is_\w+_empty|get_used_\w+|delete_empty_\w+)$", mir.strip_generics(t.get("res") or ""))]
+        for rb, rt in rem:
+            for jb, jt in jud:
+                nfirst += 1
+                if not (rb != jb and b.dominates(rb, jb)):
+                    chk.add(Finding("R10-first", "R10-first::%s::%s" % (mir.strip_generics(fid), mir.strip_generics(rt["res"]).split("::")[-1]), "%s calls %s only after (or not on every path before) %s: elements whose only content is a dangling reference are judged non-empty, survive this cleanup() and are removed by the next one" % (fid, mir.strip_generics(rt["res"]).split("::")[-1], mir.strip_generics(jt["res"]).split("::")[-1]), b.where(rt["ln"])))
+    chk.rule("R10-first", "(removal of dangling references, emptiness / use judgement) pairs inside one cleanup function: removal first", nfirst, floor=3)
     # take / put back: a list that a cleanup step moves out of the module (`std::mem::take(&mut module.x)`, to iterate over it
     # while it looks at the rest of the module) is stored back on every path to the function's return
     nrest = 0
